@@ -1,7 +1,7 @@
 (** Extraction of the C13 models (ExtrOcamlBasic only). *)
 From Coq Require Import ZArith List.
 From Coq Require Import ExtrOcamlBasic.
-From Webp Require Arch.ArchLane16 Arch.ArchLane16Tables.
+From Webp Require Arch.ArchLane16 Arch.ArchLane16Tables Arch.ArchLane16More.
 
 Separate Extraction
   BinInt.Z.add BinInt.Z.mul BinInt.Z.sub BinInt.Z.opp BinInt.Z.div BinInt.Z.modulo
@@ -12,6 +12,8 @@ Separate Extraction
   ArchLane16.lane16_fwht ArchLane16.ftransform_wht
   ArchLane16.lane32_fdct ArchLane16.ftransform
   ArchLane16.quant_go ArchLane16.quant_lane
+  ArchLane16More.dequant_go ArchLane16More.dequant_lane_ac ArchLane16More.dequant_lane_dc
+  ArchLane16More.dc_go ArchLane16More.dc16_lane ArchLane16More.dc8_lane
   ArchLane16Tables.tdisto_src ArchLane16Tables.l_tdisto_src
   ArchLane16.yuv_r ArchLane16.yuv_g ArchLane16.yuv_b ArchLane16.l_yuv_r ArchLane16.l_yuv_g ArchLane16.l_yuv_b
   ArchLane16.tm_sample ArchLane16.l_tm_sample
